@@ -161,7 +161,7 @@ def register_opcode_helpers(K):
     @K.spec("INTOF")
     def intof(eng, st, x):
         return vint(eng.int_of_val(box(x)))
-    K.contract("fickle.Get.memo_id", params="self: fickle.Get", returns="int", pure=True, may_raise=["ValueError", "TypeError"],
+    K.contract("fickle.Get.memo_id", params="self: fickle.Get", returns="int", pure=True, may_raise=["ValueError", "TypeError", "OverflowError"],
                ensures=["result == INTOF(self.arg)"])
 
 
